@@ -93,7 +93,7 @@ class Recorder:
         ev = {"tid": self._tid(), "op": "obj", "how": how, "f": _fields(o), "ds": 1 if o.is_device_settings else 0,
               "bs": 1 if o.is_baltech_naming_scheme else 0, "sk": "ok", "s": [], "scls": "", "ck": "ok", "cs": [],
               "pk": "skip", "g": NOF, "pcls": "", "pmro": [], "eq": 1}
-        fresh = object.__new__(type(o))
+        fresh = type(o)(None, None, None, None, None)      # (through the constructor: the fields may be properties over private storage)
         for a in ("customer", "project", "device", "version", "name"):
             setattr(fresh, a, getattr(o, a))
         try:
